@@ -647,9 +647,11 @@ class AuthRun(object):
         return v
 
     # ---------------------------------------------------------------- password providers
-    def make_provider(self, s):
+    def make_provider(self, s, force_callable=False):
         ch, sim, cfg = self.ch, self.sim, self.cfg
         kind = PROVIDERS[ch.weighted(PROVIDER_W, 'provider')]
+        if force_callable and kind == 'none':
+            kind = 'str'
         s.provider = kind
         if kind == 'none':
             sim.probe('provider-none')
@@ -915,6 +917,8 @@ class AuthRun(object):
                          'session %d: post_bootstrap succeeded although the %s query was answered %d' % (s.idx, step, b[0]))
         if value is not s.proto:
             sim.log('ready-value', s.idx, type(value).__name__)
+        if getattr(self, 'connect_mode', False):
+            return value
         return None
 
     def ready_err(self, s, f):
@@ -928,17 +932,20 @@ class AuthRun(object):
         if s.ready_ok + s.ready_err > 1:
             sim.fail('C04.ready-fired-twice', 'session %d: post_bootstrap fired %d times (failure %s after %s)' % (
                 s.idx, s.ready_ok + s.ready_err, f.type.__name__, 'success' if s.ready_ok else 'failure'))
+        if getattr(self, 'connect_mode', False):
+            return f        # connect() hangs its own callbacks on this Deferred: it must still see the failure
         return None
 
     # ---------------------------------------------------------------- sessions
-    def start_session(self):
+    def start_session(self, proto=None):
         from txtorcon.torcontrolprotocol import TorControlProtocol
         sim, ch = self.sim, self.ch
         s = Session(len(self.sessions))
         self.sessions.append(s)
-        pf = self.make_provider(s)
+        pf = self.make_provider(s, force_callable=proto is not None)
+        s.pf = pf
         s.peer = AuthPeer(self, s, self.cfg)
-        s.proto = TorControlProtocol(pf)
+        s.proto = TorControlProtocol(pf) if proto is None else proto
         s.proto.post_bootstrap.addCallbacks(lambda v, s=s: self.ready_ok(s, v), lambda f, s=s: self.ready_err(s, f))
         s.peer.on_command = lambda line, s=s: self.on_server_command(s, line)
         s.fault_cut_enabled = ch.chance(1, 5, 'cutfault')
@@ -961,6 +968,28 @@ class AuthRun(object):
         if len(self.sessions) == 2 and not self.sessions[0].conn.client_gone and self.sessions[0].ready_ok + self.sessions[0].ready_err == 0:
             sim.probe('interleaved-sessions')
         return s
+
+    def start_via_connect(self):
+        """the other way to an authenticated connection: txtorcon.connect() with a sequence of control endpoints and one
+        password_function for all of them; every endpoint it tries is a session of its own"""
+        import txtorcon
+        from zope.interface import implementer
+        from twisted.internet.interfaces import IStreamClientEndpoint
+        run, sim = self, self.sim
+        sim.probe('sessions-through-connect()')
+
+        @implementer(IStreamClientEndpoint)
+        class EP(object):
+            def connect(ep, factory):
+                proto = factory.buildProtocol(None)
+                run.start_session(proto=proto)
+                return defer.succeed(proto)
+
+        def shared():
+            # one function for all endpoints; each session has its own drawn provider behaviour behind it
+            return run.sessions[-1].pf()
+        d = txtorcon.connect(sim.reactor, [EP(), EP()], password_function=shared)
+        d.addBoth(lambda _: None)
 
     def settled(self, s):
         return (s.ready_ok + s.ready_err) > 0 and s.pw_pending is None
@@ -1031,6 +1060,24 @@ class AuthRun(object):
                              'delivered, but post_bootstrap failed with %s' % (s.idx, s.ready_err_type))
             if s.ready_ok and peer.auth_ok_end is None:
                 raise HarnessError('success without auth should have been flagged at firing time')
+            # "among the methods Tor advertises it uses ...": on a healthy connection with an untroubled server, a
+            # session that has a usable method must have tried one
+            if (s.method is None and s.ready_err and not s.ready_ok and peer.profile == 'clean' and s.cut is None
+                    and not s.conn.client_gone and not s.fault_cut_enabled):
+                usable = self.usable_methods(s)
+                cfg = self.cfg
+                # a cookie file that can be read but has the wrong length ends the attempt (nothing says it must fall
+                # back to the password then); the fall-back is owed when the file is absent or unreadable
+                cookie_ends_it = (('COOKIE' in cfg.methods or 'SAFECOOKIE' in cfg.methods) and
+                                  (not cfg.cookiefile_present or (cfg.cond not in ('absent', 'unreadable') and not cfg.cookie_file_ok)))
+                owed = bool(usable) and not cookie_ends_it and (
+                    (usable[0] == 'PASSWORD' and s.provider != 'raises') or
+                    (usable == ['NULL'] and cfg.methods == ['NULL']))
+                if owed:
+                    sim.fail('C04.usable-method-not-used',
+                             'session %d: Tor advertised %s, usable here: %s (provider %s, called %d times), but the client never '
+                             'authenticated and failed with %s' % (s.idx, ','.join(self.cfg.methods), usable, s.provider, s.pw_calls,
+                                                                   s.ready_err_type))
             # (c) open() only ever with the exact path (also flagged at call time)
             for p, mode in self.opens:
                 if p != cfg.path:
@@ -1078,7 +1125,12 @@ class AuthRun(object):
                     cfg.cond, cfg.path_kind, cfg.quoted[:120], 'realistic' if cfg.realistic else 'unrealistic',
                     'interleaved' if self.interleave else 'sequential')
             sim.add_source(self.actions)
-            self.start_session()
+            self.connect_mode = self.ch.chance(1, 8, 'connectmode')
+            if self.connect_mode:
+                self.interleave = False     # connect() itself decides when the next endpoint is tried
+                self.start_via_connect()
+            else:
+                self.start_session()
             budget = self.P.get('max_steps', 6000)
             n = 0
             while n < budget:
